@@ -308,6 +308,110 @@ func init() {
 			}
 			strList("createHandlerSteps", out)
 		})
+		// ----- ext5: the scavenger and the created-by stamp -----
+		// doScavenge, the body of its loop over the LISTed jobs in source order: every assignment to timeoutDuration, every
+		// if whose body ends in continue / break / return / an assignment (with its condition), the calls deleteReservation and Delete.
+		// A test of the created-by annotation here (as in Reconcile) would strand the jobs of an earlier controller instance.
+		withFn(d, "Reconciler", "doScavenge", func(fd *ast.FuncDecl) {
+			var out []string
+			var visit func(n ast.Node)
+			visit = func(n ast.Node) {
+				if n == nil {
+					return
+				}
+				ast.Inspect(n, func(x ast.Node) bool {
+					switch v := x.(type) {
+					case *ast.FuncLit:
+						return false
+					case *ast.IfStmt:
+						if v.Init != nil {
+							visit(v.Init)
+						}
+						if k := len(v.Body.List); k > 0 {
+							switch b := v.Body.List[k-1].(type) {
+							case *ast.BranchStmt:
+								out = append(out, "if "+c17Src(v.Cond)+" -> "+b.Tok.String())
+							case *ast.ReturnStmt:
+								out = append(out, "if "+c17Src(v.Cond)+" -> return")
+							case *ast.AssignStmt:
+								out = append(out, "if "+c17Src(v.Cond)+" -> assign")
+							}
+						}
+						visit(v.Body)
+						if v.Else != nil {
+							visit(v.Else)
+						}
+						return false
+					case *ast.AssignStmt:
+						for i, l := range v.Lhs {
+							if id, ok := l.(*ast.Ident); ok && id.Name == "timeoutDuration" && i < len(v.Rhs) {
+								out = append(out, "timeoutDuration = "+c17Src(v.Rhs[i]))
+							}
+						}
+					case *ast.CallExpr:
+						if name := c17Callee(v.Fun); name == "deleteReservation" || name == "Delete" {
+							out = append(out, name)
+						}
+					}
+					return true
+				})
+			}
+			for _, st := range fd.Body.List {
+				if loop, ok := st.(*ast.ForStmt); ok {
+					visit(loop.Body)
+				}
+				if loop, ok := st.(*ast.RangeStmt); ok {
+					visit(loop.Body)
+				}
+			}
+			strList("scavengeSteps", out)
+		})
+		// who stamps the created-by annotation with what, and the guard of Reconcile that reads it
+		var stamp []string
+		withFn(d, "", "CreatePodMigrationJob", func(fd *ast.FuncDecl) {
+			ast.Inspect(fd.Body, func(x ast.Node) bool {
+				if kv, ok := x.(*ast.KeyValueExpr); ok {
+					if id, ok := kv.Key.(*ast.Ident); ok && id.Name == "AnnotationJobCreatedBy" {
+						stamp = append(stamp, "annotation = "+c17Src(kv.Value))
+					}
+				}
+				return true
+			})
+		})
+		withFn(d, "Reconciler", "Evict", func(fd *ast.FuncDecl) {
+			ast.Inspect(fd.Body, func(x ast.Node) bool {
+				if c, ok := x.(*ast.CallExpr); ok && c17Callee(c.Fun) == "CreatePodMigrationJob" && len(c.Args) > 0 {
+					stamp = append(stamp, "Evict passes "+c17Src(c.Args[len(c.Args)-1]))
+				}
+				return true
+			})
+		})
+		withFn(d, "", "New", func(fd *ast.FuncDecl) {
+			ast.Inspect(fd.Body, func(x ast.Node) bool {
+				if a, ok := x.(*ast.AssignStmt); ok {
+					for i, l := range a.Lhs {
+						if ch := c17Chain(l); len(ch) > 0 && ch[len(ch)-1] == "reconcilerUID" && i < len(a.Rhs) {
+							stamp = append(stamp, "New: reconcilerUID = "+c17Src(a.Rhs[i]))
+						}
+					}
+				}
+				return true
+			})
+		})
+		withFn(d, "Reconciler", "Reconcile", func(fd *ast.FuncDecl) {
+			ast.Inspect(fd.Body, func(x ast.Node) bool {
+				if v, ok := x.(*ast.IfStmt); ok && v.Init != nil && strings.Contains(c17Src(v.Init), "AnnotationJobCreatedBy") {
+					ret := false
+					if k := len(v.Body.List); k > 0 {
+						_, ret = v.Body.List[k-1].(*ast.ReturnStmt)
+					}
+					stamp = append(stamp, fmt.Sprintf("Reconcile: %s; if %s -> return=%v", c17Src(v.Init), c17Src(v.Cond), ret))
+				}
+				return true
+			})
+		})
+		strList("createdByFacts", stamp)
+
 		emit := func(lean, fn string, calls map[string]bool, stop string) {
 			t := &c17Tracer{calls: calls, roots: c17Set("job", "cond"), stop: stop}
 			fd := e.funcDecl(d, "Reconciler", fn)
